@@ -2,6 +2,7 @@ package main
 
 import (
 	"fmt"
+	"strings"
 	"sync"
 	"time"
 
@@ -104,6 +105,14 @@ func c02cases(tier string) []c02case {
 			}
 		}
 	}
+	// an activity with a NON-interrupting boundary event that fires: the exception path is a token of the instance
+	// like any other — completion only after it has ended too (the normal path is answered first, a wait is made while
+	// the exception path's task is still pending, then that task is answered)
+	for n := 1; n <= 2; n++ {
+		for _, hi := range []int{0, 3, 5} {
+			cs = append(cs, c02case{shape: "bnd", n: n, scen: "free", hist: c02hists[hi]})
+		}
+	}
 	// enforced schedules
 	for _, sh := range shapes1 {
 		cs = append(cs, c02case{shape: sh, n: 1, scen: "missed", hist: c02hists[0]})
@@ -172,6 +181,21 @@ func c02graph(shape string, n int) *eng.Graph {
 			g.Connect(b, j, nil)
 			g.Connect(j, e, nil)
 		}
+	case "bnd":
+		for i := 0; i < n; i++ {
+			t := g.Add("task", fmt.Sprintf("T%d", i), "")
+			e := g.Add("endEvent", fmt.Sprintf("e%d", i), "")
+			g.Connect(starts[i], t, nil)
+			g.Connect(t, e, nil)
+			b := g.Add("boundaryEvent", fmt.Sprintf("B%d", i), "")
+			b.Attached = t.ID
+			b.Interrupting = false
+			b.Defs = []eng.EventDef{{Kind: "signal", Name: fmt.Sprintf("sg%d", i)}}
+			x := g.Add("task", fmt.Sprintf("X%d", i), "")
+			ex := g.Add("endEvent", fmt.Sprintf("ex%d", i), "")
+			g.Connect(b, x, nil)
+			g.Connect(x, ex, nil)
+		}
 	case "pjoin", "xmerge":
 		kind := "parallelGateway"
 		if shape == "xmerge" {
@@ -191,8 +215,8 @@ func c02graph(shape string, n int) *eng.Graph {
 
 const (
 	c02tiny = 3 * time.Millisecond
-	c02long = 300 * time.Millisecond
-	c02span = 2500 * time.Millisecond
+	c02long = 3 * time.Second // only ever waited out by a run that fails
+	c02span = 8 * time.Second
 )
 
 type c02runner struct {
@@ -427,7 +451,15 @@ func c02run(out *rec.Out, c c02case, rng *rec.Rng, tier string, stats map[string
 			in.Quiesce(q)
 		}
 	}
+	if c.shape == "bnd" {
+		// every boundary event fires once while its activity waits for its answer
+		for i := 0; i < c.n; i++ {
+			in.Quiesce(q)
+			in.Deliver("signal", fmt.Sprintf("sg%d", i), 700*time.Millisecond)
+		}
+	}
 	// ---- answer every task request, one at a time at quiescence
+	bndWaited := false
 	for steps := 0; steps < 40; steps++ {
 		if !in.Quiesce(q) {
 			in.Note("obs noquiesce")
@@ -438,7 +470,24 @@ func c02run(out *rec.Out, c c02case, rng *rec.Rng, tier string, stats map[string
 		if len(p) == 0 {
 			break
 		}
-		if !in.AnswerOK(p[rng.Intn(len(p))], nil) {
+		pick := p[rng.Intn(len(p))]
+		if c.shape == "bnd" {
+			// the normal paths first; once only exception-path tasks are pending, one wait that must not succeed
+			var normal []*eng.Req
+			for _, x := range p {
+				if strings.HasPrefix(x.Node, "T") {
+					normal = append(normal, x)
+				}
+			}
+			if len(normal) > 0 {
+				pick = normal[rng.Intn(len(normal))]
+			} else if !bndWaited {
+				bndWaited = true
+				r.group(c02wait{"pre", false, 1, "tiny"}, c02tiny).Wait()
+				in.Quiesce(q)
+			}
+		}
+		if !in.AnswerOK(pick, nil) {
 			break
 		}
 	}
